@@ -195,6 +195,8 @@ def trace_validation(rep, wd, tier, seed):
         batches = list(ex.map(_drive_traces, [(seed, c[0], c[-1] + 1) for c in chunks]))
     from . import isocheck
     batches += isocheck.mark_threaded(isocheck.threaded('harness.c04', '_drive_traces', [(seed, 10000 + 40 * k, 10000 + 40 * k + 40) for k in range(8)], procs=2))
+    # two blockers alive at the same time, written to alternately (the turn changes at every write)
+    batches += isocheck.lockstep('harness.c04', '_drive_traces', [(seed, 12000 + 30 * k, 12000 + 30 * k + 30) for k in range(8)], procs=4)
     # large inputs: more than 64 KiB through one blocker and through the one-shot function
     big = []
     for i, total in enumerate((65536 + 300, 70000, 131072 + 17)):
